@@ -8,11 +8,14 @@
      (slive  nLIM (ev ...))          ev = (sacc bEARLIER bLATER) | (sbatch nK) | sclose | (supd nL) | sdup   (L = 0: limiter off)
      (sdial  nLIM (ev ...))          ev = (sdial bEARLIER bLATER) | sclose | sredial
      (swall  nMAX nINTERVAL ((nMAX nINTERVAL) ...))   Update sequence of a wall-clock run
-     (sqlive nTOTAL nHANDLER nINTERVAL (ev ...))  ev = (scall sM) | (spush sM) | stick   (M = a | b)
+     (sqlive nTOTAL nHANDLER nINTERVAL (ev ...))  ev = (scall sM) | (spush sM) | stick | (supd nTOTAL nHANDLER nINTERVAL)   (M = a | b)
+     (sulive zLIM (ev ...)) / (sudial zLIM (ev ...))   Update-centred histories on the accept / dial side:
+                                     ev = (sconn bEARLIER bLATER) | (sbatch nK) | (sclose nJ) | (supd zL) | sdup | sredial
+                                     (whole-plugin model Model/OverloaderConn.v; J = position among the live sessions)
    observations: one item per op/event, see each runner. *)
 From Coq Require Import Strings.String Strings.Byte.
 From Coq Require Import List Arith NArith ZArith Bool Lia.
-From Verif Require Import Base.Bytes Base.Val Model.Threads Model.ConnLimiter Model.TokenBucket.
+From Verif Require Import Base.Bytes Base.Val Model.Threads Model.ConnLimiter Model.TokenBucket Model.OverloaderConn.
 Import ListNotations.
 Local Open Scope Z_scope.
 
@@ -322,6 +325,129 @@ Definition run_mlive0 (lim : Z) (evs : list val) : option (list val) :=
   | None => None
   end.
 
+
+(* ---- Update-centred live histories (accept or dial side): the whole-plugin model ----
+   sessions are numbered in order of arrival; ord = the admitted ones, oldest first *)
+Fixpoint o_steps (fuel : nat) (st : ostate) (k : nat) : ostate :=
+  match fuel with
+  | O => st
+  | S f => match ostep false st (OStep k) with Some st' => o_steps f st' k | None => st end
+  end.
+
+Definition o_pending (st : ostate) (k : nat) : bool :=
+  match getn HNone k (o_where st) with
+  | HInst g => is_taken_b (getn sess0 k (l_ss (inst st g)))
+  | HFree => match getn NIdle k (o_free st) with NPending => true | _ => false end
+  | HNone => false
+  end.
+
+Definition o_is_live (st : ostate) (k : nat) : bool :=
+  match getn HNone k (o_where st) with
+  | HInst g => is_live_b (getn sess0 k (l_ss (inst st g)))
+  | HFree => match getn NIdle k (o_free st) with NLive => true | _ => false end
+  | HNone => false
+  end.
+
+Definition o_connect (st : ostate) (k : nat) (sd : side) (e l : bool) : option ostate :=
+  match ostep false st (OConnect k sd e) with
+  | None => None
+  | Some st1 =>
+      let st2 := o_steps 12 st1 k in
+      if o_pending st2 k then
+        match ostep false st2 (OLater k l) with
+        | Some st3 => Some (o_steps 12 st3 k)
+        | None => None
+        end
+      else Some st2
+  end.
+
+Definition o_accept (st : ostate) (ord : list nat) (next : nat) (sd : side) (e l : bool)
+  : option (ostate * list nat) :=
+  match o_connect st next sd e l with
+  | Some st' => Some (st', if o_is_live st' next then ord ++ [next] else ord)
+  | None => None
+  end.
+
+Fixpoint o_accept_many (st : ostate) (ord : list nat) (next : nat) (sd : side) (n : nat)
+  : option (ostate * list nat) :=
+  match n with
+  | O => Some (st, ord)
+  | S n' => match o_accept st ord next sd true true with
+            | Some (st', ord') => o_accept_many st' ord' (S next) sd n'
+            | None => None
+            end
+  end.
+
+Fixpoint remove_nth (j : nat) (l : list nat) : list nat :=
+  match j, l with
+  | _, [] => []
+  | O, _ :: r => r
+  | S j', x :: r => x :: remove_nth j' r
+  end.
+
+Definition o_close (st : ostate) (ord : list nat) (j : nat) : option (ostate * list nat) :=
+  match nth_error ord j with
+  | None => Some (st, ord)
+  | Some k =>
+      match ostep false st (OClose k) with
+      | Some st' => Some (o_steps 12 st' k, remove_nth j ord)
+      | None => None
+      end
+  end.
+
+Fixpoint o_redial_all (st : ostate) (ord : list nat) : option ostate :=
+  match ord with
+  | [] => Some st
+  | k :: r => match ostep false st (ORedial k) with
+              | Some st' => o_redial_all st' r
+              | None => None
+              end
+  end.
+
+Definition oobs (st : ostate) : val :=
+  let a := VN (Z.to_N (oadmitted st)) in
+  VL [a; a;
+      match o_cur st with Some g => VN (N.of_nat g) | None => vsym "none" end;
+      VL (map (fun s => VL [VZ (c_now (l_c s)); VZ (c_tmp (l_c s)); VZ (c_lim (l_c s))]) (o_gens st))].
+
+Fixpoint run_olive (sd : side) (st : ostate) (ord : list nat) (next : nat) (evs : list val)
+  : option (list val) :=
+  match evs with
+  | [] => Some []
+  | v :: r =>
+      let k := fun (o : option (ostate * list nat)) (next' : nat) =>
+        match o with
+        | Some (st', ord') => option_map (cons (oobs st')) (run_olive sd st' ord' next' r)
+        | None => None
+        end in
+      if sym_eqb v "dup" then k (Some (st, ord)) next   (* the repaired hook finds no holder *)
+      else if sym_eqb v "redial" then k (option_map (fun st' => (st', ord)) (o_redial_all st ord)) next
+      else match v with
+           | VL [h; e; l] =>
+               if sym_eqb h "conn" then
+                 match vbool_of e, vbool_of l with
+                 | Some eb, Some lb => k (o_accept st ord next sd eb lb) (S next)
+                 | _, _ => None
+                 end
+               else None
+           | VL [h; VN n] =>
+               if sym_eqb h "batch" then k (o_accept_many st ord next sd (N.to_nat n)) (next + N.to_nat n)%nat
+               else if sym_eqb h "close" then k (o_close st ord (N.to_nat n)) next
+               else None
+           | VL [h; VZ n] =>
+               if sym_eqb h "upd" then k (option_map (fun st' => (st', ord)) (ostep false st (OUpdate n))) next
+               else None
+           | _ => None
+           end
+  end.
+
+(* overloader.New(cfg) = the empty plugin followed by Update(cfg) *)
+Definition run_olive0 (sd : side) (lim : Z) (evs : list val) : option (list val) :=
+  match ostep false oempty (OUpdate lim) with
+  | Some st => run_olive sd st [] 0 evs
+  | None => None
+  end.
+
 (* ---- live rate limit: total bucket, one handler bucket (method a), none for b ---- *)
 Definition outcome_val (o : outcome) : val :=
   match o with
@@ -342,6 +468,14 @@ Fixpoint run_qlive (total handler : option bucket) (evs : list val) : option (li
         let h' := option_map b_tick handler in
         option_map (cons (VL [vsym "tick"; tok t'; tok h'])) (run_qlive t' h' r)
       else match v with
+           | VL [h; VN t; VN hd; VN iv] =>
+               (* Overloader.Update: total limiter and the limiter of method a *)
+               if sym_eqb h "upd" then
+                 match ov_update total (Z.of_N t) (Z.of_N iv), ov_update handler (Z.of_N hd) (Z.of_N iv) with
+                 | Some t', Some h' => option_map (cons (VL [vsym "upd"; tok t'; tok h'])) (run_qlive t' h' r)
+                 | _, _ => None
+                 end
+               else None
            | VL [h; m] =>
                let hb := if sym_eqb m "a" then handler else None in
                let '(vd, t', hb') := post_read_header total hb in
@@ -388,6 +522,10 @@ Definition run (inp : val) : option val :=
       else if sym_eqb k "cconc" then option_map VL (run_cconc (mkR (c_new l) []) evs)
       else if sym_eqb k "live" then option_map VL (run_mlive0 l evs)
       else if sym_eqb k "dial" then option_map VL (run_live SDial (linit l) 0 evs)
+      else None
+  | VL [k; VZ lim; VL evs] =>
+      if sym_eqb k "ulive" then option_map VL (run_olive0 SAccept lim evs)
+      else if sym_eqb k "udial" then option_map VL (run_olive0 SDial lim evs)
       else None
   | VL [k; VN m; VN iv; VL evs] =>
       match once_of (Z.of_N m) (Z.of_N iv) with
